@@ -172,6 +172,9 @@ func (g *gen) next(s *sim) Op {
 		o.V = g.val()
 	case "Next", "Previous", "Remove", "Drop":
 		o.H = g.pickHandle(s)
+		if o.H < 0 && r.Chance(4, 5) {
+			o.H = g.pickHandle(s) // a nil receiver panics and ends the case: keep it rare
+		}
 	case "Set":
 		o.H = g.pickHandle(s)
 		o.V = g.val()
@@ -206,11 +209,11 @@ func (g *gen) next(s *sim) Op {
 // ---------------------------------------------------------------- corpus: fixed sequences that always run
 
 func mk(op string, l int, v int64) Op { return Op{Op: op, L: l, V: v, H: -1, N: -1} }
-func hop1(op string, h int) Op           { return Op{Op: op, H: h, N: -1} }
-func hop2(op string, h, n int) Op        { return Op{Op: op, H: h, N: n} }
-func lk(op string, l, k int) Op          { return Op{Op: op, L: l, K: k, H: -1, N: -1} }
-func ll(op string, l, l2 int) Op         { return Op{Op: op, L: l, L2: l2, H: -1, N: -1} }
-func set(h int, v int64) Op              { return Op{Op: "Set", H: h, N: -1, V: v} }
+func hop1(op string, h int) Op        { return Op{Op: op, H: h, N: -1} }
+func hop2(op string, h, n int) Op     { return Op{Op: op, H: h, N: n} }
+func lk(op string, l, k int) Op       { return Op{Op: op, L: l, K: k, H: -1, N: -1} }
+func ll(op string, l, l2 int) Op      { return Op{Op: op, L: l, L2: l2, H: -1, N: -1} }
+func set(h int, v int64) Op           { return Op{Op: "Set", H: h, N: -1, V: v} }
 
 func corpus() [][]Op {
 	push1234 := []Op{mk("PushBack", 0, 1), mk("PushBack", 0, 2), mk("PushBack", 0, 3), mk("PushBack", 0, 4),
